@@ -196,3 +196,68 @@ pub fn lowpan(pan: u16, ll_dst: &[u8], ll_src: &[u8], seq: u8, src: &Ip, dst: &I
     f.extend_from_slice(payload);
     f
 }
+
+/// IPv4 fragment: `payload` is the slice of the original IP payload starting at `offset` octets
+pub fn ipv4_frag(src: &Ip, dst: &Ip, proto: u8, ttl: u8, ident: u16, offset: usize, more: bool, payload: &[u8]) -> Vec<u8> {
+    let total = (20 + payload.len()) as u16;
+    let mut h = vec![0x45, 0];
+    h.extend_from_slice(&total.to_be_bytes());
+    h.extend_from_slice(&ident.to_be_bytes());
+    let fo = ((offset / 8) as u16) | if more { 0x2000 } else { 0 };
+    h.extend_from_slice(&fo.to_be_bytes());
+    h.extend_from_slice(&[ttl, proto, 0, 0]);
+    h.extend_from_slice(src.bytes());
+    h.extend_from_slice(dst.bytes());
+    let c = csum(&[&h]);
+    h[10..12].copy_from_slice(&c.to_be_bytes());
+    h.extend_from_slice(payload);
+    h
+}
+
+fn mac154(pan: u16, ll_dst: &[u8], ll_src: &[u8], seq: u8) -> Vec<u8> {
+    let mode = |a: &[u8]| -> u16 {
+        match a.len() {
+            2 => 2,
+            8 => 3,
+            _ => 0,
+        }
+    };
+    let fcf: u16 = 1 | (1 << 6) | (mode(ll_dst) << 10) | (mode(ll_src) << 14);
+    let mut f = vec![];
+    f.extend_from_slice(&fcf.to_le_bytes());
+    f.push(seq);
+    f.extend_from_slice(&pan.to_le_bytes());
+    let mut d = ll_dst.to_vec();
+    d.reverse();
+    f.extend_from_slice(&d);
+    let mut s = ll_src.to_vec();
+    s.reverse();
+    f.extend_from_slice(&s);
+    f
+}
+
+/// An IPv6 datagram from a neighbor as two 6LoWPAN fragments (RFC 4944 §5.3): FRAG1 carries the
+/// IPHC header (all fields inline, standing for the 40-octet IPv6 header) plus the first
+/// `first` payload octets (40+first must be a multiple of 8), FRAGN the rest.
+pub fn lowpan_two_frags(pan: u16, ll_dst: &[u8], ll_src: &[u8], tag: u16, src: &Ip, dst: &Ip, nh: u8, hop: u8, payload: &[u8], first: usize) -> Vec<Vec<u8>> {
+    assert!((40 + first) % 8 == 0 && first < payload.len());
+    let size = (40 + payload.len()) as u16;
+    let mut f1 = mac154(pan, ll_dst, ll_src, 8);
+    f1.push(0b1100_0000 | (size >> 8) as u8);
+    f1.push(size as u8);
+    f1.extend_from_slice(&tag.to_be_bytes());
+    f1.push(0b0111_1000);
+    f1.push(0);
+    f1.push(nh);
+    f1.push(hop);
+    f1.extend_from_slice(src.bytes());
+    f1.extend_from_slice(dst.bytes());
+    f1.extend_from_slice(&payload[..first]);
+    let mut f2 = mac154(pan, ll_dst, ll_src, 9);
+    f2.push(0b1110_0000 | (size >> 8) as u8);
+    f2.push(size as u8);
+    f2.extend_from_slice(&tag.to_be_bytes());
+    f2.push(((40 + first) / 8) as u8);
+    f2.extend_from_slice(&payload[first..]);
+    vec![f1, f2]
+}
